@@ -5,7 +5,9 @@ ShardN == EnvInt("VSHARDN", 1)
 Core == {TBool, TNum, TStr, TDyn, TList(TNum), TList(TStr), TList(TDyn), TSet(TStr), TSet(TNum), TMap(TNum), TMap(TStr), TMap(TDyn),
          TTup(<<TNum, TStr>>), TTup(<<TNum, TNum>>), TTup(<<TStr, TStr>>), TTup(<<TBool, TStr>>), TTup(<<>>), TTup(<<TStr>>), TObj([a |-> TNum]), TObj([a |-> TStr, b |-> TNum]), TObj(<<>>),
          TObj([a |-> TDyn]), TObj([b |-> TBool]), TList(TList(TNum)), TList(TObj([a |-> TNum])), TMap(TList(TStr)), TTup(<<TList(TStr), TNum>>),
-         TSet(TTup(<<TNum, TStr>>)), TTup(<<TDyn, TNum>>), TList(TTup(<<TNum, TStr>>)), TMap(TObj([a |-> TStr])), TTup(<<TObj([a |-> TNum]), TObj([a |-> TStr])>>)}
+         TSet(TTup(<<TNum, TStr>>)), TTup(<<TDyn, TNum>>),
+         \* structural types that differ only in which member has which type
+         TObj([a |-> TNum, b |-> TStr]), TTup(<<TStr, TNum>>), TObj([a |-> TBool, b |-> TStr]), TList(TTup(<<TNum, TStr>>)), TMap(TObj([a |-> TStr])), TTup(<<TObj([a |-> TNum]), TObj([a |-> TStr])>>)}
 Small == TakeN(Core, 12) \cup {TList(TDyn), TTup(<<TNum, TStr>>), TTup(<<TStr, TStr>>), TObj([a |-> TNum]), TTup(<<TStr>>), TMap(TNum)}
 L1 == {<<a>> : a \in Core}
 L2 == {<<a, b>> : a \in Core, b \in Core}
